@@ -30,9 +30,19 @@ def main(argv):
   pp.pick_unused_port = lambda: next(ports)
   sys.modules.setdefault('portpicker', pp)
   import pytest
+  verif = os.getcwd()
   os.chdir(repo)
-  targets = [a for a in argv if not a.startswith('-')] or MODULES
+  targets = [a for a in argv if not a.startswith('-')]
   flags = [a for a in argv if a.startswith('-')]
+  if not targets:
+    # one interpreter per module, as upstream runs them: the modules share process-wide singletons
+    # (worker registry, a server named 'unreachable_server') and are not independent otherwise
+    import subprocess
+    rc = 0
+    for m in MODULES:
+      rc |= subprocess.call([sys.executable, '-m', 'harness.fakecourier.upstream_selftest', *flags, m],
+                            cwd=verif)
+    return rc
   return pytest.main(['-q', '-p', 'no:cacheprovider', '-o', 'addopts=', *flags, *targets])
 
 
